@@ -12,6 +12,7 @@ import (
 	"log"
 	"os"
 	"regexp"
+	"runtime/debug"
 	"sort"
 	"strings"
 
@@ -146,6 +147,7 @@ type TaintResult struct {
 	Escapes []string // source ids with an escape
 	Err     string
 	Panic   string
+	Stack   string `json:",omitempty"`
 }
 
 var digitsRe = regexp.MustCompile(`([0-9])$`)
@@ -187,6 +189,7 @@ func RunTaintYaml(l *Loaded, yamlText string) (res TaintResult, raw *taint.Analy
 	defer func() {
 		if r := recover(); r != nil {
 			res.Panic = fmt.Sprint(r)
+			res.Stack = panicStack()
 		}
 	}()
 	cfg, err := LoadConfig(yamlText)
@@ -229,4 +232,16 @@ func Quiet() {
 	if err == nil {
 		_ = devnull
 	}
+}
+
+// panicStack returns the frames below the panic call, truncated.
+func panicStack() string {
+	st := string(debug.Stack())
+	if i := strings.Index(st, "panic("); i >= 0 {
+		st = st[i:]
+	}
+	if len(st) > 1500 {
+		st = st[:1500]
+	}
+	return st
 }
